@@ -13,4 +13,6 @@ CONSTANTS
   NChecks = 0
   MaxVer = 1
   DistShared = FALSE
+  NEntries = 0
+  NestedRead = FALSE
   Part = "alerts"
